@@ -38,11 +38,13 @@ Definition dump_eqb (a b : dump) : bool :=
 
 Definition is_dump_op (o : op) : bool := match o with OCommit | ORollback | ONewSession => true | _ => false end.
 
-(* At the dirty sites 3 and 9 (a failing Entity.set with collection arguments, a failing delete) the code runs its undo functions -
-   Entity.set in forward order - and an undo function may itself raise AssertionError (`assert obj2 is obj` on objects_to_save),
-   which then replaces the original exception: the model's error kind or AssertionError are both accepted there. *)
+(* At the dirty sites where the code runs undo functions after a partial change (1 failed creation, 2 / 3 failing Entity.set - there in
+   forward order -, 4 failing collection assignment, 9 failing delete) an undo function may itself raise AssertionError
+   (`assert obj2 is obj ...` on objects_to_save, when later steps of the same call moved the queue), which then replaces the original
+   exception: the model's error kind or AssertionError are both accepted there. *)
 Definition undo_may_assert (s1 : sess) (r1 r : res) : bool :=
-  (Nat.eqb (s_dirty s1) 3 || Nat.eqb (s_dirty s1) 9) && match r1, r with RErr _, RErr EAssertion => true | _, _ => false end.
+  (Nat.eqb (s_dirty s1) 1 || Nat.eqb (s_dirty s1) 2 || Nat.eqb (s_dirty s1) 3 || Nat.eqb (s_dirty s1) 4 || Nat.eqb (s_dirty s1) 9) &&
+  match r1, r with RErr _, RErr EAssertion => true | _, _ => false end.
 
 (* verdict code: 0 = all compared results and dumps agree; 100 + site = stopped at a dirty step (agreeing so far; site numbers in Model/Session.v); 2 = stopped where the
    model declines; 3 = result mismatch at the index; 4 = dump mismatch at the index.  Second component: op index. *)
